@@ -461,7 +461,7 @@ def parse_path(spec):
     relpath = parts[0]
     segs = []
     for p in parts[1:]:
-        if re.match(r'(fn|impl|const|enum|struct|trait|mod|static|type|union)\s', p):
+        if re.match(r'(fn|impl|const|enum|struct|trait|mod|static|type|union)[\s<]', p):
             segs.append(p)
         else:
             segs[-1] = segs[-1] + '::' + p
@@ -521,6 +521,13 @@ def do_extract(u, spec, subs, tline):
         d = sd['d']
         if d.startswith('t4 '):
             args = d.split()[1:]
+            if len(args) > 1 and args[1] == '*':
+                # every site of this kind (zero or more)
+                while t4mod.count_sites(text, args[0]) > 0:
+                    text, note = t4mod.apply(text, [args[0], '0'])
+                    fn_counts['T4'] = fn_counts.get('T4', 0) + 1
+                    u.rewrites.append({'fn': ' :: '.join(path), 'file': relpath, 'kind': 'T4', 'what': note})
+                continue
             text, note = t4mod.apply(text, args)
             fn_counts['T4'] = fn_counts.get('T4', 0) + 1
             u.rewrites.append({'fn': ' :: '.join(path), 'file': relpath, 'kind': 'T4', 'what': note})
